@@ -1,7 +1,11 @@
 //! Correspondence harness (DESIGN §2.3): drives the real anemo code in-process (hooks on) and emits
 //! the op lines for the Lean model together with the implementation's canonical answers.
+mod fabric;
+mod net;
 mod out;
 mod rng;
+mod size;
+mod smoke;
 mod wire;
 
 use out::{Run, Tier};
@@ -14,6 +18,9 @@ fn main() -> anyhow::Result<()> {
         std::process::exit(2);
     }
     let prop = a[1].clone();
+    if prop == "smoke" {
+        return smoke::run();
+    }
     let get = |k: &str| a.iter().position(|x| x == k).and_then(|i| a.get(i + 1)).cloned();
     let seed: u64 = get("--seed").and_then(|s| s.parse().ok()).unwrap_or(1);
     let tier = match get("--tier").as_deref() {
@@ -26,6 +33,10 @@ fn main() -> anyhow::Result<()> {
     let mut run = Run::new(&prop, seed, tier, work);
     match prop.as_str() {
         "C07" => wire::run_c07(&mut run, replay.as_deref(), &corpus)?,
+        "C15" => match replay.as_deref() {
+            Some(r) => size::replay(&mut run, r)?,
+            None => size::run_c15(&mut run)?,
+        },
         _ => anyhow::bail!("unknown property {prop}"),
     }
     run.finish()
